@@ -312,3 +312,82 @@ class parse_table_settings:
                 and (('header_color' in result) == ('header_color' in tok))
                 and ('header_color' not in tok or result['header_color'] == tok['header_color'])
                 and all(k == 'note' or k == 'header_color' for k in result.keys()))
+
+
+@contract('pydbml.definitions.table:parse_table')
+class parse_table:
+    """Table [schema.]name [as alias] [settings] { columns, note, indexes, properties }: the note in
+    the body overrides the one in the settings; a table without columns is refused with SyntaxError."""
+    properties = ('C01', 'C06', 'C14', 'C15')
+    params = {'s': 'str', 'loc': 'int',
+              'tok': "PR(name:str, schema?:str, settings?:DictS(note:NoteBlueprint, header_color:str), alias?:List[str], "
+                     "note?:List[NoteBlueprint], indexes?:List[List[IndexBlueprint]], columns?:List[ColumnBlueprint], "
+                     "comment_before?:List[List[str]], property?:List[List[str]])"}
+    ret = 'TableBlueprint'
+    allowed = ('TypeError',)
+
+    def requires_shapes(s, loc, tok):
+        return (('alias' not in tok or len(tok['alias']) >= 1) and ('note' not in tok or len(tok['note']) >= 1)
+                and ('indexes' not in tok or len(tok['indexes']) >= 1)
+                and ('comment_before' not in tok or all(len(c) >= 1 for c in tok['comment_before']))
+                and ('property' not in tok or all(len(p) == 2 for p in tok['property'])))
+
+    def raises_SyntaxError(s, loc, tok):
+        return 'columns' not in tok or len(tok['columns']) == 0
+
+    def ensures_identity(s, loc, tok, result):
+        return (fresh(result) and result.name == tok['name']
+                and result.schema == (tok['schema'] if 'schema' in tok else 'public')
+                and result.alias == (tok['alias'][0] if 'alias' in tok else None))
+
+    def ensures_note_body_wins(s, loc, tok, result):
+        return result.note is (tok['note'][0] if 'note' in tok else
+                               (tok['settings']['note'] if 'settings' in tok and 'note' in tok['settings'] else None))
+
+    def ensures_rest(s, loc, tok, result):
+        return (result.header_color == (tok['settings']['header_color'] if 'settings' in tok and 'header_color' in tok['settings'] else None)
+                and result.columns is tok['columns']
+                and result.indexes is (tok['indexes'][0] if 'indexes' in tok else None)
+                and result.comment == (above(tok) if 'comment_before' in tok else None)
+                and (('property' in tok) == (result.properties is not None)))
+
+
+@contract('pydbml.definitions.enum:parse_enum')
+class parse_enum:
+    properties = ('C01', 'C14')
+    params = {'s': 'str', 'loc': 'int',
+              'tok': "PR(name:str, items:List[EnumItemBlueprint], schema?:str, comment_before?:List[List[str]])"}
+    ret = 'EnumBlueprint'
+
+    def requires_shapes(s, loc, tok):
+        return 'comment_before' not in tok or all(len(c) >= 1 for c in tok['comment_before'])
+
+    def ensures_fields(s, loc, tok, result):
+        return (fresh(result) and result.name == tok['name']
+                and result.schema == (tok['schema'] if 'schema' in tok else 'public')
+                and result.comment == (above(tok) if 'comment_before' in tok else None))
+
+    def ensures_items_in_order(s, loc, tok, result):
+        return len(result.items) == len(tok['items']) and \
+            all(result.items[i] is tok['items'][i] for i in range(len(tok['items'])))
+
+
+@contract('pydbml.definitions.table_group:parse_table_group')
+class parse_table_group:
+    properties = ('C01', 'C14')
+    params = {'s': 'str', 'loc': 'int',
+              'tok': "PR(name:str, items?:List[str], comment_before?:List[List[str]], note?:NoteBlueprint, color?:str)"}
+    ret = 'TableGroupBlueprint'
+
+    def requires_shapes(s, loc, tok):
+        return 'comment_before' not in tok or all(len(c) >= 1 for c in tok['comment_before'])
+
+    def ensures_fields(s, loc, tok, result):
+        return (fresh(result) and result.name == tok['name']
+                and result.comment == (above(tok) if 'comment_before' in tok else None)
+                and result.note is (tok['note'] if 'note' in tok else None)
+                and result.color == (tok['color'] if 'color' in tok else None))
+
+    def ensures_items_in_order(s, loc, tok, result):
+        return len(result.items) == (len(tok['items']) if 'items' in tok else 0) and \
+            ('items' not in tok or all(result.items[i] == tok['items'][i] for i in range(len(tok['items']))))
